@@ -716,7 +716,7 @@ def gen_joint_case(rng):
         else:
             pre = None
             base = x
-            if not contig and rng.random() < 0.25:
+            if not contig and rng.random() < 0.4:
                 pre = []
                 for n, c in zip(shape, chunks):
                     if rng.random() < 0.5:      # start on a chunk boundary: same offset, different extent
@@ -725,12 +725,28 @@ def gen_joint_case(rng):
                         a = rng.randint(0, n - 1)
                     pre.append(('s', int(a), rng.randint(a + 1, n), None))
                 pre = pre[:rng.randint(1, nd)]
+            where = (rng.randrange(nstores), rng.choice([0, 0, 1]))
+            views = [i for i in inds if i['pre']]
+            other_view = bool(views) and rng.random() < 0.6
+            if other_view:
+                # another view of a stored array already viewed: same start (same offset / first chunk), other extent
+                v = rng.choice(views)
+                where = (v['store'], v['name'])
+                pre = [('s', i[1], rng.randint(i[1] + 1, n), None) for i, n in zip(v['pre'], shape)]
+            if pre is not None:
                 base = np_oindex(x, pre)
             keep = keep0 if (pre is None and rng.random() < 0.7) else rnd_keep(base.shape)
-            ind = dict(store=rng.randrange(nstores), name=rng.choice([0, 0, 1]), parent=None, pre=pre, keep=list(keep),
-                       trs=None)
+            ind = dict(store=where[0], name=where[1], parent=None, pre=pre, keep=list(keep), trs=None)
+            twins = [i for i in inds if i['parent'] is None]
+            if twins and nstores > 1 and not other_view and rng.random() < 0.35:
+                # the same array name, view, selection and transforms - held by ANOTHER store
+                v = rng.choice(twins)
+                ind = dict(v, store=rng.choice([t for t in range(nstores) if t != v['store']]), keep=list(v['keep']),
+                           trs=list(v['trs']))
+                base = x if not v['pre'] else np_oindex(x, v['pre'])
         ds = np_oindex(base, ind['keep'])
-        ind['trs'] = rnd_trs(ds)
+        if ind['trs'] is None:
+            ind['trs'] = rnd_trs(ds)
         for c in ind['trs']:
             ds = tr_np(c, ds)
         inds.append(ind)
